@@ -579,6 +579,13 @@ fn main() {
                         Ok(s) => json!({"ok": true, "out": s}),
                         Err(e) => json!({"ok": false, "msg": format!("{e}").lines().next().unwrap_or("").to_string()}),
                     };
+                    // keys of a map as the template sees them when it goes through the entries, and looks each one up again
+                    if value.is_map() {
+                        r["keys"] = match tera.render_str("{% for k, x in v %}{{ k }}\u{1f}{% if v[k] is defined %}Y{% else %}N{% endif %}\u{1e}{% endfor %}|{{ v | keys | length }}|{% for p in v | pairs %}{{ p[0] }}\u{1e}{% endfor %}", &ctx, false) {
+                            Ok(s) => json!({"ok": true, "out": s}),
+                            Err(e) => json!({"ok": false, "msg": format!("{e}").lines().next().unwrap_or("").to_string()}),
+                        };
+                    }
                     // re-serialising the Value gives the same Value
                     r["reser"] = json!(Value::try_from_serializable(&value).map(|v2| v2 == value).unwrap_or(false));
                     // Context construction paths agree (top-level structs only)
